@@ -4,3 +4,6 @@ import TypedpyModel.Props.C05
 #print axioms Typedpy.C05.class_serialize_pure_json
 #print axioms Typedpy.C05.falsy_survive
 #print axioms Typedpy.C05.round_trip_example
+#print axioms Typedpy.C05.class_round_trip_partial
+#print axioms Typedpy.C05.optional_survives
+#print axioms Typedpy.C05.class_round_trip_example
